@@ -108,7 +108,7 @@ def sig_info(code):
     return offs, sorted(set(targets))
 
 
-def build_loader(accs, name, org, dest, length, stack, rng, delay_a=None, delay_b=None, npilot=8, span=120, nblocks=1, startup=None):
+def build_loader(accs, name, org, dest, length, stack, rng, delay_a=None, delay_b=None, npilot=8, span=120, nblocks=1, startup=None, fin=(0, 0)):
     """Machine code of a turbo loader whose edge detector is the loop shape `name`:
 
         start:  DI; LD SP,stack; (alt regs) HL'=dest DE'=length C'=1; EAR/mask registers
@@ -147,6 +147,7 @@ def build_loader(accs, name, org, dest, length, stack, rng, delay_a=None, delay_
         # one-off delay before listening (the pilot tone is still running): DEC A loops entered with the
         # boundary values of A (0 counts as 256 iterations)
         for n_, (kind_, k_) in enumerate(startup):
+            A.b(0x37 if (n_ + k_) % 2 else 0xB7)       # SCF / OR A: DEC A leaves the carry alone
             A.b(0x3E, k_)
             A.label('su%d' % n_)
             if kind_ == 'jr':
@@ -154,6 +155,8 @@ def build_loader(accs, name, org, dest, length, stack, rng, delay_a=None, delay_
             else:
                 A.b(0x3D)
                 A.jp(0xC2, 'su%d' % n_)
+            A.b(0xF5)                                   # PUSH AF: A and F after the loop stay in RAM (all RAM is compared)
+        A.b(0x31, stack % 256, stack // 256)
     A.b(0xD9, 0x21, dest % 256, dest // 256, 0x11, length % 256, length // 256, 0x0E, 0x01, 0xD9)
     if typeB:
         if name.startswith('audiogenic'):
@@ -219,7 +222,7 @@ def build_loader(accs, name, org, dest, length, stack, rng, delay_a=None, delay_
     A.word('nblk')
     A.b(0x3D, 0x32)
     A.word('nblk')
-    A.jp(0xCA, 'done')
+    A.jp(0xCA, 'fin')
     A.b(0xD9, 0x11, length % 256, length // 256, 0x0E, 0x01, 0xD9)
     A.jp(0xC3, 'restart')
     A.label('nb')
@@ -228,7 +231,10 @@ def build_loader(accs, name, org, dest, length, stack, rng, delay_a=None, delay_
     A.label('fail')
     A.b(0x3E, 0xEE, 0x32)
     A.word('failflag')
-    A.jp(0xC3, 'done')
+    A.label('fin')
+    # a last DEC A that is not part of a delay loop (boundary operands, carry set or clear): its A and F are in the final
+    # snapshot, so the DEC tables behind the accelerate-dec-a hooks (Python `loadtracer.DEC`, C `DEC`) are compared too
+    A.b(0x3E, fin[0], 0x37 if fin[1] else 0xB7, 0x3D)
     A.label('done')
     A.b(0x00, 0x18, 0xFE)
     A.label('failflag')
@@ -340,6 +346,16 @@ class Runner:
         self.dir = os.path.join(chk.scratch, 'e2e')
         os.makedirs(self.dir, exist_ok=True)
         self.n = 0
+        # tap2sna does not store the clock in the snapshot it writes (`get_state(simulator, False)`); the property names the
+        # T-state position, so the clock the simulation ended on is read where tap2sna collects the final state
+        self.last_t = None
+        orig_get_state = self.tap2sna.get_state
+        runner = self
+
+        def get_state_hook(simulator, *a, **k):
+            runner.last_t = int(simulator.registers[25])
+            return orig_get_state(simulator, *a, **k)
+        self.tap2sna.get_state = get_state_hook
 
     def path(self, name):
         return os.path.join(self.dir, name)
@@ -349,6 +365,7 @@ class Runner:
         out = self.path('out.z80')
         if os.path.exists(out):
             os.remove(out)
+        self.last_t = None
         args = []
         for c in cfg:
             args += ['-c', c]
@@ -379,7 +396,7 @@ class Runner:
                 os.close(r)
                 res = self.load_inproc(tape, cfg, start, extra)
                 with os.fdopen(w, 'wb') as f:
-                    pickle.dump(res, f)
+                    pickle.dump((res, self.last_t), f)
             except BaseException:
                 code = 1
             os._exit(code)
@@ -387,10 +404,12 @@ class Runner:
         with os.fdopen(r, 'rb') as f:
             blob = f.read()
         _, status = os.waitpid(pid, 0)
+        self.last_t = None
         if os.WIFSIGNALED(status):
             return None, [f'CRASH signal {os.WTERMSIG(status)}']
         try:
-            return pickle.loads(blob)
+            res, self.last_t = pickle.loads(blob)
+            return res
         except Exception:
             return None, ['CRASH no result']
 
@@ -426,9 +445,22 @@ def first_diff(run, a, b):
     return f'registers (ref, this): {regs}; first RAM differences (addr, ref, this): {mem}'
 
 
-def strict_compare(chk, run, tape, tape_bytes, ref_cfg, ref, cfg, start, extra, key, what, forked=False):
+def same_pause(cfg, ref_cfg):
+    p = lambda c: next((x for x in c if x.startswith('pause=')), 'pause=1')
+    return p(cfg) == p(ref_cfg)
+
+
+def strict_compare(chk, run, tape, tape_bytes, ref_cfg, ref, cfg, start, extra, key, what, forked=False, ref_t=None):
     data, tail = run.load(tape, cfg, start, extra)
     if data == ref:
+        # the T-state position (not in the file tap2sna writes): equal clocks, among runs that treat the gaps between blocks
+        # alike (pause=1 moves the clock to the first edge of the next block by design)
+        if ref_t is not None and run.last_t is not None and run.last_t != ref_t and same_pause(cfg, ref_cfg):
+            chk.violation(key + ':tstates', f'{what}: same snapshot, but the simulation with [{cfg_key(cfg)}] ends at T={run.last_t} and with '
+                          f'[{cfg_key(ref_cfg)}] at T={ref_t}',
+                          {'kind': 'strict', 'tape_name': os.path.basename(tape), 'tape': base64.b64encode(tape_bytes).decode(),
+                           'ref_cfg': ref_cfg, 'cfg': cfg, 'start': start, 'extra': list(extra)})
+            return False
         return True
     if data is None:
         desc = f'{what}: no snapshot written with [{cfg_key(cfg)}] ({tail}) but [{cfg_key(ref_cfg)}] loads'
@@ -476,7 +508,7 @@ def rom_tapes(chk, run):
     rng = chk.rng
     for n in range(chk.scale(2, 8)):
         length = rng.choice((1, 2, 17, 40, 257, rng.randrange(1, 400)))
-        org = rng.choice((0x8000, 0xC000, 65536 - length, rng.randrange(0x6000, 65536 - length)))
+        org = rng.choice((0x8000, 0xC000, 65536 - length, rng.randrange(0x6000, 65536 - length))) if n else 65536 - length   # first tape: ends at 0xFFFF
         data = bytes(rng.randrange(256) for _ in range(length))
         binf = run.path('r.bin')
         with open(binf, 'wb') as f:
@@ -486,13 +518,35 @@ def rom_tapes(chk, run):
         run.bin2tap.main(['-o', str(org), '-s', str(org), '-p', str(stack), binf, tape])
         with open(tape, 'rb') as f:
             tape_bytes = f.read()
+        if n % 2 == 1:
+            # stray blocks in front of the program (a headerless data block, a header of another kind of file): LD-BYTES sees a
+            # flag byte it does not expect and goes on listening; the fast-load shortcut has its own branch for this
+            stray = []
+            # (the first block decides between LOAD "" and LOAD ""CODE in tap2sna: keep a non-header in front)
+            for kind in [rng.choice(('data', 'short'))] + rng.choice(([], ['header'], ['header', 'data'])):
+                if kind == 'data':
+                    blk = [0xFF] + [rng.randrange(256) for _ in range(rng.choice((1, 5, 30)))]
+                elif kind == 'short':
+                    blk = [0xFF]
+                else:
+                    blk = [0x00, 3] + [ord(ch) for ch in 'stray     '] + [7, 0, 0, 0x90, 0, 0x80]
+                par = 0
+                for b in blk:
+                    par ^= b
+                blk.append(par)
+                stray.append(bytes([len(blk) % 256, len(blk) // 256] + blk))
+            tape_bytes = b''.join(stray) + tape_bytes
+            with open(tape, 'wb') as f:
+                f.write(tape_bytes)
         polarity = rng.randrange(2)
         first_edge = rng.choice((0, 0, 1000, 2168, rng.randrange(0, 5000)))
-        base = [f'polarity={polarity}', f'first-edge={first_edge}']
+        # (simulated-time limit: a configuration under which the tape no longer loads must not run for the default 15 minutes)
+        base = [f'polarity={polarity}', f'first-edge={first_edge}', 'timeout=60']
         what = f'bin2tap tape ({length} bytes at {org}, stack {stack}, polarity={polarity}, first-edge={first_edge})'
         # reference: C simulator, nothing accelerated, real-time ROM load
         ref_cfg = base + ['python=0', 'accelerator=none', 'accelerate-dec-a=0', 'pause=1', 'fast-load=0', 'cmio=0']
         ref, tail = run.load(tape, ref_cfg, org)
+        ref_t = run.last_t
         loaded = False
         if ref is not None:
             s, m = run.parse(ref)
@@ -500,6 +554,22 @@ def rom_tapes(chk, run):
         chk.case('e2e:rom:ref', ('rom', length, org, polarity, first_edge), {'tape': what, 'loaded': loaded, 'output': tail[-2:]} if n == 0 else None)
         if not loaded:
             chk.dist['e2e:rom:not-loading'] += 1
+            # the property is about tapes that load: if this one loads under another setting of the speed-up options or
+            # with the other simulator, that setting changed the result (PC reached / bytes loaded)
+            for alt in (['python=1', 'accelerator=none', 'accelerate-dec-a=0', 'pause=1', 'fast-load=0', 'cmio=0'],
+                        ['python=0', 'accelerator=auto', 'accelerate-dec-a=3', 'pause=1', 'fast-load=0', 'cmio=0'],
+                        ['python=0', 'accelerator=none', 'accelerate-dec-a=0', 'pause=1', 'fast-load=1', 'cmio=0']):
+                adata, atail = run.load(tape, base + alt, org)
+                chk.case('e2e:rom:alt-ref', ('rom-alt', n, tuple(alt)))
+                if adata is None:
+                    continue
+                s2, m2 = run.parse(adata)
+                if s2.pc == org and bytes(m2[org:org + length]) == data:
+                    chk.violation('rom-loader:reference-does-not-load:' + '+'.join(a for a, b in zip(alt, ref_cfg[len(base):]) if a != b),
+                                  f'{what}: loads with [{cfg_key(base + alt)}] but not with [{cfg_key(ref_cfg)}] ({tail})',
+                                  {'kind': 'strict', 'tape_name': os.path.basename(tape), 'tape': base64.b64encode(tape_bytes).decode(),
+                                   'ref_cfg': base + alt, 'cfg': ref_cfg, 'start': org, 'extra': []})
+                    break
             continue
         # bit-identical group (fast-load=0, cmio=0): C exhaustively, Python sampled
         combos = [(py, acc, da, pa) for py in (0, 1) for acc in ('auto', 'none', 'rom', 'rom,speedlock') for da in (0, 1, 2, 3) for pa in (0, 1)]
@@ -508,15 +578,16 @@ def rom_tapes(chk, run):
         chosen = c_combos + rng.sample(py_combos, chk.scale(1, 6) if n < 2 else chk.scale(0, 3))
         for py, acc, da, pa in chosen:
             cfg = base + [f'python={py}', f'accelerator={acc}', f'accelerate-dec-a={da}', f'pause={pa}', 'fast-load=0', 'cmio=0']
-            strict_compare(chk, run, tape, tape_bytes, ref_cfg, ref, cfg, org, (), 'rom-loader:strict:' + dims_key(py, acc != 'none', da, pa), what)
+            strict_compare(chk, run, tape, tape_bytes, ref_cfg, ref, cfg, org, (), 'rom-loader:strict:' + dims_key(py, acc != 'none', da, pa), what, ref_t=ref_t)
             chk.case(f'e2e:rom:strict:python={py}', ('rom', n, py, acc, da, pa))
         # bit-identical group with fast loading on
         ref2_cfg = base + ['python=0', 'accelerator=none', 'accelerate-dec-a=0', 'pause=1', 'fast-load=1', 'cmio=0']
         ref2, _ = run.load(tape, ref2_cfg, org)
+        ref2_t = run.last_t
         if ref2 is not None:
             for py, acc, da, pa in ((0, 'auto', 3, 0), (1, 'auto', 3, 1), (1, 'none', 0, 0), (0, 'rom', 1, 1)):
                 cfg = base + [f'python={py}', f'accelerator={acc}', f'accelerate-dec-a={da}', f'pause={pa}', 'fast-load=1', 'cmio=0']
-                strict_compare(chk, run, tape, tape_bytes, ref2_cfg, ref2, cfg, org, (), 'rom-loader:strict-fast-load:' + dims_key(py, acc != 'none', da, pa), what)
+                strict_compare(chk, run, tape, tape_bytes, ref2_cfg, ref2, cfg, org, (), 'rom-loader:strict-fast-load:' + dims_key(py, acc != 'none', da, pa), what, ref_t=ref2_t)
                 chk.case('e2e:rom:strict-fast-load', ('romfl', n, py, acc, da, pa))
         # loaded bytes / PC / SP group: fast-load x cmio
         weak = [(0, 1, 0), (0, 0, 1), (0, 1, 1), (1, 1, 0)]
@@ -546,7 +617,8 @@ def custom_tape(run, rng, accs, name, span, nblocks, gap_ms):
         startup.append(('jp', 0))
     if not any(k == 'jr' and v == 0 for k, v in startup) and rng.randrange(2):
         startup.append(('jr', 0))
-    code, info = build_loader(accs, name, org, dest, length, 0xBFF0, rng, delay_a=delay_a, delay_b=delay_b, span=span, nblocks=nblocks, startup=startup)
+    fin = (rng.choice((0x00, 0x01, 0x10, 0x80, 0xFF, 0x20, rng.randrange(256))), rng.randrange(2))
+    code, info = build_loader(accs, name, org, dest, length, 0xBFF0, rng, delay_a=delay_a, delay_b=delay_b, span=span, nblocks=nblocks, startup=startup, fin=fin)
     binf = run.path('l.bin')
     with open(binf, 'wb') as f:
         f.write(bytes(code))
@@ -555,7 +627,7 @@ def custom_tape(run, rng, accs, name, span, nblocks, gap_ms):
     with open(tapf, 'rb') as f:
         std = [tzx_std(b) for b in tap_blocks(f.read())]
     return dict(org=org, dest=dest, length=length, datas=datas, info=info, std=std, done=info['labels']['done'], failflag=info['labels']['failflag'],
-                delays=(delay_a, delay_b, tuple(startup)), gap_ms=gap_ms)
+                delays=(delay_a, delay_b, tuple(startup), ('fin',) + fin), gap_ms=gap_ms)
 
 
 def custom_loaders(chk, run):
@@ -580,6 +652,7 @@ def custom_loaders(chk, run):
         info = t['info']
         # the pair alignment of the loader depends on the parity of the pilot: take the first that loads
         ref = None
+        tried = []
         for npil in ((40, 41) if rng.random() < 0.5 else (41, 40)):
             turbo = []
             ok_tape = True
@@ -591,11 +664,13 @@ def custom_loaders(chk, run):
             with open(tape, 'wb') as f:
                 f.write(tape_bytes)
             data, tail = run.load(tape, ref_cfg, t['done'], extra)
+            tried.append(tape_bytes)
             if data is not None:
                 s, m = run.parse(data)
                 want = b''.join(t['datas'])
                 if s.pc == t['done'] and m[t['failflag']] == 0 and bytes(m[t['dest']:t['dest'] + len(want)]) == want:
                     ref = data
+                    ref_t = run.last_t
                     break
         what = (f'custom loader built on loop shape {name!r} (counter span {span}, {nblocks} turbo block(s), delays {t["delays"]}, '
                 f'polarity={polarity}, first-edge={first_edge})')
@@ -603,6 +678,28 @@ def custom_loaders(chk, run):
                  {'tape': what, 'loaded': ref is not None} if name in ('rom', 'software-projects') else None)
         if ref is None:
             chk.dist['e2e:custom:not-loading'] += 1
+            # as above: does the last tape tried load with the other simulator / with acceleration on?
+            want = b''.join(t['datas'])
+            found = False
+            for tb in tried:
+                with open(tape, 'wb') as f:
+                    f.write(tb)
+                for alt in (['python=1', 'accelerator=none', 'accelerate-dec-a=0', 'pause=1', 'fast-load=1', 'cmio=0'],
+                            ['python=0', 'accelerator=auto', 'accelerate-dec-a=3', 'pause=1', 'fast-load=1', 'cmio=0']):
+                    adata, atail = run.load(tape, base + alt, t['done'], extra)
+                    chk.case('e2e:custom:alt-ref', ('custom-alt', name, tuple(alt), len(tb)))
+                    if adata is None:
+                        continue
+                    s2, m2 = run.parse(adata)
+                    if s2.pc == t['done'] and m2[t['failflag']] == 0 and bytes(m2[t['dest']:t['dest'] + len(want)]) == want:
+                        chk.violation(f'custom-loader:{name}:reference-does-not-load:' + '+'.join(a for a, b in zip(alt, ref_cfg[len(base):]) if a != b),
+                                      f'{what}: loads with [{cfg_key(base + alt)}] but not with [{cfg_key(ref_cfg)}] ({tail})',
+                                      {'kind': 'strict', 'tape_name': os.path.basename(tape), 'tape': base64.b64encode(tb).decode(),
+                                       'ref_cfg': base + alt, 'cfg': ref_cfg, 'start': t['done'], 'extra': list(extra)})
+                        found = True
+                        break
+                if found:
+                    break
             continue
         zero_ctr = span == 256 and not accs[name].inc
         keybase = f'custom-loader:{name}'
@@ -611,7 +708,7 @@ def custom_loaders(chk, run):
             # (Python skipped -1 iterations, C read out of bounds); only the accelerator differs from the reference here
             for py in (0, 1):
                 cfg = base + [f'python={py}', f'accelerator={name}', 'accelerate-dec-a=0', 'pause=1', 'fast-load=1', 'cmio=0']
-                strict_compare(chk, run, tape, tape_bytes, ref_cfg, ref, cfg, t['done'], extra, f'tsl-dec-counter-zero:python={py}', what, forked=(py == 0))
+                strict_compare(chk, run, tape, tape_bytes, ref_cfg, ref, cfg, t['done'], extra, f'tsl-dec-counter-zero:python={py}', what, forked=(py == 0), ref_t=ref_t)
                 chk.case('e2e:custom:dec-counter-zero', ('zero', name, py))
         named = [name, name + ',rom'] if name != 'rom' else ['rom', 'rom,tiny']
         combos = [(py, acc, da, pa) for py in (0, 1) for acc in ['auto', 'none'] + named for da in (0, 1, 2, 3) for pa in (0, 1)]
@@ -625,7 +722,7 @@ def custom_loaders(chk, run):
             accel_on = acc != 'none'
             strict_compare(chk, run, tape, tape_bytes, ref_cfg, ref, cfg, t['done'], extra,
                            keybase + ':strict:' + dims_key(py, accel_on, da, pa),
-                           what, forked=(py == 0 and zero_ctr))
+                           what, forked=(py == 0 and zero_ctr), ref_t=ref_t)
             chk.case(f'e2e:custom:strict:python={py}', ('custom', name, span, nblocks, py, acc, da, pa))
         # scratch-changing options: loaded bytes, PC, SP
         want_len = len(t['datas']) * t['length']
@@ -686,12 +783,13 @@ def replay(chk, classes, data):
     with open(tape, 'wb') as f:
         f.write(tape_bytes)
     ref, tail = run_.load(tape, data['ref_cfg'], data['start'], tuple(data['extra']))
+    ref_t = run_.last_t
     if ref is None:
         print('reference configuration does not load:', tail)
         return False
     n0 = len(chk.violations)
     if data['kind'] == 'strict':
-        strict_compare(chk, run_, tape, tape_bytes, data['ref_cfg'], ref, data['cfg'], data['start'], tuple(data['extra']), 'replay', 'replay', forked=True)
+        strict_compare(chk, run_, tape, tape_bytes, data['ref_cfg'], ref, data['cfg'], data['start'], tuple(data['extra']), 'replay', 'replay', forked=True, ref_t=ref_t)
     else:
         weak_compare(chk, run_, tape, tape_bytes, data['ref_cfg'], ref, data['cfg'], data['start'], tuple(data['extra']), tuple(data['region']), 'replay', 'replay', forked=True)
     for v in chk.violations[n0:]:
